@@ -104,6 +104,8 @@ pub enum ROp {
     AsyncWait { a: usize, write: bool },
     /// harness wrote to the peer of / read from the adapter's fd
     AsyncIo { a: usize },
+    /// adapter `a` is moved into the callback closure of source `src` (released whenever that closure is dropped)
+    AsyncGive { a: usize, src: SrcId },
     Wakeup,
     InsertBad { which: u8, fd: i32 },
 }
@@ -161,6 +163,8 @@ pub enum Ev {
     /// the case exceeded its callback budget (a history that multiplies its own events, e.g. by enabling an
     /// enabled source again and again): nothing after this entry is judged
     Exhausted,
+    /// teardown: every adapter still owned by a callback closure is dropped now (the loop is still alive)
+    BagsCleared,
     Adapted { a: Option<usize>, nonblocking_after: bool },
     /// outcome of the single poll of readable()/writable()
     AsyncPolled { a: usize, ready: bool },
@@ -189,6 +193,11 @@ pub struct Shared {
     /// post action the last callback of a composite's child asked for: (composite, child, action)
     pub child_forced: Cell<Option<(SrcId, u8, PostRet)>>,
     pub thread: std::thread::ThreadId,
+    /// things a source's callback closure owns on behalf of the history (Async adapters handed to it): dropped
+    /// together with the closure (from CbGuard::drop), i.e. wherever calloop drops the callback
+    pub bags: RefCell<std::collections::HashMap<SrcId, Vec<Box<dyn std::any::Any>>>>,
+    /// sources whose callback closure has been dropped
+    pub cb_dropped: RefCell<std::collections::HashSet<SrcId>>,
 }
 
 pub type Sh = Rc<Shared>;
@@ -204,6 +213,8 @@ impl Shared {
             ret_removed: RefCell::new(Vec::new()),
             child_forced: Cell::new(None),
             thread: std::thread::current().id(),
+            bags: RefCell::new(std::collections::HashMap::new()),
+            cb_dropped: RefCell::new(std::collections::HashSet::new()),
         })
     }
     #[inline]
